@@ -293,8 +293,34 @@ impl<K: CacheKey + 'static> DiskCache<K> {
     }
 
     /// Generate file path for a cache key
-    fn get_file_path(&self, key: &K) -> PathBuf {
+    ///
+    /// The key string is used as a relative path below the cache directory.
+    /// Keys that would address anything else are refused: an absolute path or a
+    /// `..` component leaves the directory, and a key without any normal
+    /// component (empty, `.`) names the cache directory itself, whose temporary
+    /// sibling file would be created next to it.
+    fn get_file_path(&self, key: &K) -> CacheResult<PathBuf> {
+        use std::path::Component;
+
         let key_str = key.as_cache_key();
+
+        let mut has_normal_component = false;
+        for component in Path::new(key_str).components() {
+            match component {
+                Component::Normal(_) => has_normal_component = true,
+                Component::CurDir => {}
+                Component::ParentDir | Component::RootDir | Component::Prefix(_) => {
+                    return Err(CacheError::Backend(format!(
+                        "invalid cache key {key_str:?}: not a relative path inside the cache directory"
+                    )));
+                }
+            }
+        }
+        if !has_normal_component {
+            return Err(CacheError::Backend(format!(
+                "invalid cache key {key_str:?}: does not name a file inside the cache directory"
+            )));
+        }
 
         if self.config.use_subdirectories {
             // Create hierarchical directory structure using key hash
@@ -315,9 +341,9 @@ impl<K: CacheKey + 'static> DiskCache<K> {
             }
 
             path.push(key_str);
-            path
+            Ok(path)
         } else {
-            self.config.cache_dir.join(key_str)
+            Ok(self.config.cache_dir.join(key_str))
         }
     }
 
@@ -586,7 +612,7 @@ impl<K: CacheKey + 'static> AsyncCache<K> for DiskCache<K> {
             }
         } else {
             // Not in index - try to find file on disk as fallback
-            let file_path = self.get_file_path(key);
+            let file_path = self.get_file_path(key)?;
             if file_path.exists() {
                 #[cfg(feature = "verif-hooks")]
                 crate::verif_hooks::sched_point("disk.get.fallback.before_read_file");
@@ -643,7 +669,7 @@ impl<K: CacheKey + 'static> AsyncCache<K> for DiskCache<K> {
         let start_time = Instant::now();
         let size_bytes = value.len();
 
-        let file_path = self.get_file_path(&key);
+        let file_path = self.get_file_path(&key)?;
 
         #[cfg(feature = "verif-hooks")]
         crate::verif_hooks::sched_point("disk.put.before_write_file");
@@ -751,7 +777,7 @@ impl<K: CacheKey + 'static> AsyncCache<K> for DiskCache<K> {
         } else {
             // Not indexed, but a file written by an earlier instance may still be
             // on disk, where `get` would find and serve it: delete it as well
-            let file_path = self.get_file_path(key);
+            let file_path = self.get_file_path(key)?;
             Ok(fs::remove_file(&file_path).is_ok())
         }
     }
